@@ -35,6 +35,64 @@ func newMsg(rpc int, dir string, seq int) *Msg {
 
 func hdrMD(k string) metadata.MD { return metadata.Pairs(k, "v-"+k) }
 
+const scribble = "zzz"
+
+// sendMsg is the message a sender hands to the library for (rpc, dir, seq). Normally a fresh object; with
+// scenario option "reuse" every sender keeps ONE object, overwrites it in place before each send (same
+// backing array) and scribbles over it as soon as the send has returned -- what the application may do
+// with a message it owns again. It also notes if somebody else has written to the object in between.
+func (e *Env) sendMsg(rpc int, dir string, seq int) *Msg {
+	return e.sendMsgKey(strconv.Itoa(rpc)+dir, rpc, dir, seq)
+}
+
+func (e *Env) sendMsgKey(k string, rpc int, dir string, seq int) *Msg {
+	if !strings.Contains(e.sc.Opts, "reuse") {
+		return newMsg(rpc, dir, seq)
+	}
+	e.nlock()
+	defer e.nunlock()
+	if e.reused == nil {
+		e.reused = map[string]*Msg{}
+	}
+	m := e.reused[k]
+	if m == nil {
+		m = &Msg{Payload: []byte(scribble)}
+		e.reused[k] = m
+	}
+	if !e.native {
+		access(m, true)
+	}
+	if string(m.Payload) != scribble {
+		rr := e.rec.RPCs[rpc]
+		rr.Monitor = append(rr.Monitor, fmt.Sprintf("alias:the sender's own message object (%s) was changed behind its back to %q", k, m.Payload))
+	}
+	copy(m.Payload, tag(rpc, dir, seq))
+	m.Count = int32(seq)
+	return m
+}
+
+// sent: the send has returned, the message is the sender's again.
+func (e *Env) sent(m *Msg) {
+	if !strings.Contains(e.sc.Opts, "reuse") || m == nil || len(m.Payload) != len(scribble) {
+		return
+	}
+	if !e.native {
+		access(m, true)
+	}
+	copy(m.Payload, scribble)
+	m.Count = -1
+}
+
+// received: the receiver owns what it received and may change it in place.
+func (e *Env) received(m *Msg) {
+	if !strings.Contains(e.sc.Opts, "reuse") {
+		return
+	}
+	for i := range m.Payload {
+		m.Payload[i] = '!'
+	}
+}
+
 // Env is the closed system of one execution.
 type Env struct {
 	sc     *Scenario
@@ -51,6 +109,7 @@ type Env struct {
 	hStarted, hDone int32
 	nmu             sync.Mutex
 	hrets           map[int]*hretCh
+	reused          map[string]*Msg // Opts "reuse": the one message object each sender keeps sending
 }
 
 // finalize reads the call-option targets once everything is quiescent (reading
@@ -192,6 +251,7 @@ func (e *Env) unaryHandler(i int, ctx context.Context, dec func(interface{}) err
 			rr.SrvRecvRes = append(rr.SrvRecvRes, es(err))
 			if err == nil {
 				rr.SrvRecv = append(rr.SrvRecv, string(m.Payload))
+				e.monitorPrefix(i, "srv")
 			}
 			e.rec.ev(tn, op, es(err))
 		case strings.HasPrefix(op, "h:") || strings.HasPrefix(op, "H:") || strings.HasPrefix(op, "t:"):
@@ -333,6 +393,7 @@ func (e *Env) handlerOps(i int, tn string, stream grpc.ServerStream, ops []strin
 				if err == nil {
 					rr.SrvRecv = append(rr.SrvRecv, string(m.Payload))
 					e.monitorPrefix(i, "srv")
+					e.received(&m)
 				}
 				if op == "r!" && err != nil {
 					return err // as generated code does: a failed receive ends the handler with that error
@@ -360,12 +421,13 @@ func (e *Env) handlerOps(i int, tn string, stream grpc.ServerStream, ops []strin
 			must := strings.HasPrefix(op, "s!") // as generated code does: a failed send ends the handler with that error
 			seq, _ := strconv.Atoi(strings.TrimPrefix(op[1:], "!"))
 			rr.SrvSendAttempt = append(rr.SrvSendAttempt, tag(i, "s", seq))
-			resp := newMsg(i, "s", seq)
+			resp := e.sendMsg(i, "s", seq)
 			own := e.own(resp, tag(i, "s", seq), "handler SendMsg")
 			e.where("handler:SendMsg")
 			err := stream.SendMsg(resp)
 			e.where("")
 			own.returned()
+			e.sent(resp)
 			rr.SrvSendRes = append(rr.SrvSendRes, es(err))
 			if err == nil {
 				rr.SrvSendDone++
@@ -515,7 +577,12 @@ func (e *Env) clientOps(i int, tn string, c *cli, ops []string) {
 		case op == "I":
 			var resp Msg
 			rr.SendAttempt = append(rr.SendAttempt, tag(i, "c", 0))
-			req := newMsg(i, "c", 0)
+			// (option "reuse": successive unary calls made by one client task hand over the same request object)
+			rk := strconv.Itoa(i) + "c"
+			if strings.Contains(e.sc.Opts, "seq0") && i <= 1 {
+				rk = "root-unary"
+			}
+			req := e.sendMsgKey(rk, i, "c", 0)
 			own := e.own(req, tag(i, "c", 0), "Invoke")
 			ownD := e.own(&resp, tag(i, "d", 0), "Invoke")
 			e.where("client:Invoke")
@@ -523,6 +590,7 @@ func (e *Env) clientOps(i int, tn string, c *cli, ops []string) {
 			e.where("")
 			own.returned()
 			ownD.returned()
+			e.sent(req)
 			e.nlock()
 			rr.RecvRes = append(rr.RecvRes, es(err))
 			if err == nil {
@@ -538,6 +606,9 @@ func (e *Env) clientOps(i int, tn string, c *cli, ops []string) {
 		case op[0] == 'S' || op[0] == 'E':
 			seq, _ := strconv.Atoi(op[1:])
 			req := newMsg(i, "c", seq)
+			if op[0] == 'S' {
+				req = e.sendMsg(i, "c", seq)
+			}
 			e.nlock()
 			if op[0] == 'E' {
 				req = &Msg{} // the empty message: zero bytes on the wire
@@ -551,6 +622,9 @@ func (e *Env) clientOps(i int, tn string, c *cli, ops []string) {
 			err := c.stream.SendMsg(req)
 			e.where("")
 			own.returned()
+			if op[0] == 'S' {
+				e.sent(req)
+			}
 			e.nlock()
 			rr.SendRes = append(rr.SendRes, es(err))
 			if err == nil {
@@ -618,6 +692,7 @@ func (e *Env) clientOps(i int, tn string, c *cli, ops []string) {
 						rr.Monitor = append(rr.Monitor, "merge:receive destination was merged, not overwritten")
 					}
 					e.monitorPrefix(i, "cli")
+					e.received(&m)
 					if !rpc.serverStreams() && op == "R*" {
 						// single-response method: one receive completes the call
 						stop = true
